@@ -76,7 +76,7 @@ def history(rng, length):
                     open_gen = True
             ops.append(op)
             mops.append('C:%d:%d:%s:0:-' % (kind in ('map', 'imap'), p, out))
-    return {'seed': rng.randint(0, 10 ** 6), 'pool': pool, 'ops': ops, 'model_ops': mops, 'latency_bound': 5.0}
+    return {'seed': rng.randint(0, 10 ** 6), 'pool': pool, 'ops': ops, 'model_ops': mops, 'latency_bound': 5.0, 'same_func': rng.random() < .5}
 
 
 def snap_tok(c):
@@ -92,7 +92,17 @@ def run(chk):
     drv = Driver()
     rng = chk.rng
     L = 6 if chk.tier == 'quick' else 20
-    scs = [history(rng, rng.randint(2, L)) for _ in range(250 if chk.tier == 'quick' else 4000)]
+    import glob
+    import json as _json
+    import os as _os
+    from harness.common import ROOT
+    corpus = []
+    for f in sorted(glob.glob(_os.path.join(ROOT, 'corpus', 'C06', '*.json'))):
+        try:
+            corpus.append(_json.load(open(f))['case']['scenario'])
+        except Exception:
+            pass
+    scs = corpus + [history(rng, rng.randint(2, L)) for _ in range(250 if chk.tier == 'quick' else 4000)]
     obs = run_scenarios(chk, 'random histories with failures on one pool (DetSim): successful calls == sequential evaluation', scs, {'C06', 'C01', 'C02', 'C03', 'C05'},
                         nontrivial=lambda sc, o: len(sc['ops']) >= 3,
                         dist=lambda sc, o: {'length': len(sc['ops']), 'start': sc['pool']['start_method'],
